@@ -527,8 +527,8 @@ impl<T: Payload> ChanDyn for Chan<T> {
                 }
                 let all = matches!(i, Instr::WriteAll(..));
                 let first = self.next_id;
-                ev(&format!("{}{c}:{first}:{n}", if all { "iwa" } else { "iw" }));
                 self.kept = None;
+                ev(&format!("{}{c}:{first}:{n}", if all { "iwa" } else { "iw" }));
                 let (_, v) = self.fresh(n);
                 if T::KIND != Kind::B && n > 0 {
                     payload::expect_slab(c, first);
@@ -542,8 +542,8 @@ impl<T: Payload> ChanDyn for Chan<T> {
                     return self.skip();
                 }
                 let first = self.next_id;
-                ev(&format!("iwo{c}:{first}"));
                 self.kept = None;
+                ev(&format!("iwo{c}:{first}"));
                 let (_, mut v) = self.fresh(1);
                 if T::KIND != Kind::B {
                     payload::expect_slab(c, first);
